@@ -32,7 +32,8 @@ def spell_float(x, r=None):
 def encode_line(name, value_text, ts_text, r=None, eol=b'\n'):
   if r is None:
     return ('%s %s %s' % (name, value_text, ts_text)).encode('utf-8') + eol
-  seps = [' ', '  ', '\t', ' \t ']
+  # any run of characters str.split() treats as whitespace separates fields (line feeds and carriage returns end the line)
+  seps = [' ', '  ', '\t', ' \t ', ' ', ' ', '\x0b', '\x0c', '\x1c', '\x1d', '\x1e', '\x1f', '\x85', '\u2028', '\u2029', '\xa0', '\u3000', ' \x0c ']
   lead = r.choice(['', '', '', ' ', '\t'])
   trail = r.choice(['', '', '', ' ', '\t', '  '])
   s = lead + name + r.choice(seps) + value_text + r.choice(seps) + ts_text + trail
